@@ -1,2 +1,3 @@
 -- Root of the library: importing every property module makes `lake build` re-check everything.
 import ExprModel.Props.C14
+import ExprModel.Props.C05
